@@ -147,7 +147,7 @@ def expr_level(ctx, exe, harness, quick, stats):
                 if st == "hazard":
                     kid = "K1" if v == 0 else "K2"
                     bump(tag + "known " + kid)
-                    ctx.known_finding(kid + ": " + KNOWN[kid])
+                    ctx.known_finding("C08-" + kid + ": " + KNOWN[kid])
                 elif st == "hazard-fixed":
                     bump(tag + "hazard pair separated by the implementation (finding not reproduced)")
                 elif same == "0":
@@ -155,7 +155,7 @@ def expr_level(ctx, exe, harness, quick, stats):
                         for ch, kid in (("u", "K25"), ("c", "K26")):
                             if ch in cls:
                                 bump(tag + "known " + kid)
-                                ctx.known_finding(kid + ": " + KNOWN[kid])
+                                ctx.known_finding("C08-" + kid + ": " + KNOWN[kid])
                     else:
                         bump(tag + "V:tree-changed")
                         violation(c, "printing and re-reading changes the tree outside the known classes (formatter v%d)" % (v + 1), "", i, m)
@@ -185,7 +185,7 @@ def expr_level(ctx, exe, harness, quick, stats):
                 elif st == "hazard":
                     kid = "K1" if v == 0 else "K2"
                     bump(tag + "known " + kid)
-                    ctx.known_finding(kid + ": " + KNOWN[kid])
+                    ctx.known_finding("C08-" + kid + ": " + KNOWN[kid])
                 elif st == "hazard-fixed":
                     bump(tag + "hazard pair separated by the implementation (finding not reproduced)")
                 elif idem != "1":
@@ -305,13 +305,13 @@ def file_level(ctx, quick, stats):
                 if w[:2] == ["known", "W"]:
                     # the harness itself compared with the recorded verdict of an unclassified witness
                     bump("witness as recorded: still fails")
-                    ctx.known_finding("W: " + FILE_KNOWN["W"])
+                    ctx.known_finding("C08-W: " + FILE_KNOWN["W"])
                 elif exp is None:
                     bump("witness without recorded verdict")
                 elif exp == got:
                     bump("witness as recorded: " + ("ok" if got == "ok" else "still fails"))
                     if w[0] == "known":
-                        ctx.known_finding(w[1] + ": " + FILE_KNOWN.get(w[1], i))
+                        ctx.known_finding("C08-" + w[1] + ": " + FILE_KNOWN.get(w[1], i))
                 elif got == "ok":
                     bump("witness no longer fails (finding not reproduced): " + exp)
                 else:
@@ -324,7 +324,7 @@ def file_level(ctx, quick, stats):
                     nontrivial += 1
             elif w[0] == "known":
                 bump("known " + w[1] + " (" + (cw[2] if len(cw) > 2 else "") + ")")
-                ctx.known_finding(w[1] + ": " + FILE_KNOWN.get(w[1], i))
+                ctx.known_finding("C08-" + w[1] + ": " + FILE_KNOWN.get(w[1], i))
             else:
                 bump("V:" + w[0] + " " + tag)
                 violation({"fmt-error": "format.Source fails on a source that parses",
